@@ -541,8 +541,17 @@ def _axis_rule(ctx, repo, rm, rd):
         calls = [c for c in ast.walk(fn5) if isinstance(c, ast.Call) and call_name(c) in ('empty', 'zeros')]
         if not calls:
             raise Unknown('zero-repetition records vanished')
-        labels = as_arr(AxisInterp({'repetitions': Dim('R')}).ev(calls[0])).labels
-        return len(labels) == 3 and labels[0] in ('#0', 'R'), f'zero-repetition records have layout {labels}: they must be 3-D with an empty repetition axis first'
+        env5 = {'repetitions': Dim('R')}
+        # `for key, (num_instances, qid_shape) in self._get_measurement_shapes(program).items()`: instances and per-qubit shape of each key
+        for l5 in [l for l in ast.walk(fn5) if isinstance(l, ast.For) and '_get_measurement_shapes' in ast.unparse(l.iter)]:
+            t5 = l5.target
+            if isinstance(t5, ast.Tuple) and len(t5.elts) == 2 and isinstance(t5.elts[1], ast.Tuple) and len(t5.elts[1].elts) == 2 \
+                    and all(isinstance(e, ast.Name) for e in t5.elts[1].elts):
+                env5[t5.elts[1].elts[0].id] = Dim('I')
+                env5[t5.elts[1].elts[1].id] = Lst('Q', 0)
+        labels = as_arr(AxisInterp(env5).ev(calls[0])).labels
+        return len(labels) == 3 and labels[0] in ('#0', 'R') and labels[1:] == ('I', 'Q'), \
+            f'zero-repetition records have layout {labels}: they must be (0, instances, qubits) of the key, as a run with repetitions gives (adding the two results otherwise fails)'
     site(f'{ss.qual}.run_sweep_iter:zero-repetitions', ss.mod.rel, fn5.lineno, s5)
 
     # S6  SimulatorBase._run: padding of per-repetition records
